@@ -24,7 +24,7 @@ RULE = ('every element (both isotope modes) and every tabulated isotope once (ex
 SHARDS = {'quick': 16, 'thorough': 16}
 MIN_NONTRIVIAL = {'quick': 1000, 'thorough': 30000}
 TIME_CAP = {'quick': 300, 'thorough': 3600}
-REQUIRED_CLASSES = ['sum-then-add-on-result-or-operand', 'single-element', 'single-isotope', 'natural', 'most-abundant', 'group', 'nesting>=3',
+REQUIRED_CLASSES = ['substance*tiny-number', 'substance*almost-whole-number', 'sum-then-add-on-result-or-operand', 'single-element', 'single-isotope', 'natural', 'most-abundant', 'group', 'nesting>=3',
                     'multiplied-group-followed-by-group', 'multiplied-group-followed-by-explicit-plus',
                     'two-capitals-in-a-row', 'count>=10', 'isotope-suffix', 'charge-suffix', 'isotope+charge-suffix',
                     'nucleon', 'deuterium-tritium', 'explicit-multiplication', 'implicit-multiplication',
@@ -134,7 +134,8 @@ def cases(rng, tier, shard, nshards, ctx):
             yield dict(t='addel', f=R.gen_formula(rng, T, dict(maxdepth=2, maxitems=3, avoid_known=True)),
                        el=s, n=R.gen_count(rng), natural=natural, present=rng.random() < 0.4)
         else:
-            k = rng.choice([2, 3, 7, 10, 0.5, 2.5, 1, rng.randint(2, 40), round(rng.uniform(0.1, 20), 3)])
+            k = rng.choice([2, 3, 7, 10, 0.5, 2.5, 1, rng.randint(2, 40), round(rng.uniform(0.1, 20), 3),
+                            1e-9, 1e-8, 3e-7, 1.00000002, 0.99999997, 2.00000001, 1e6, 1 / 3, 1e-3])       # tiny, huge and almost-whole multipliers
             yield dict(t='mul', f=R.gen_formula(rng, T, dict(maxdepth=2, maxitems=4, avoid_known=True)), k=k, natural=natural)
 
 
@@ -437,6 +438,11 @@ def _run(case, ctx):
         trivial = False
     elif t == 'mul':
         classes.add('substance*number')
+        kk = float(case['k'])
+        if kk < 1e-6:
+            classes.add('substance*tiny-number')
+        elif abs(kk - round(kk)) < 1e-6 and kk != round(kk):
+            classes.add('substance*almost-whole-number')
         a = build(f, 'operand')
         fp += '|%r' % case['k']
         if a is not None:
